@@ -150,7 +150,10 @@ func prepareHost(dir string) {
 	mustGit(dir, "tag", "v1.0")
 	mustGit(dir, "tag", "-a", "v1.0-annotated", "-m", "annotated")
 	mustGit(dir, "branch", "feature/x")
-	mustGit(dir, "branch", "bugs") // a branch that merely shares a name with git-bug's namespace
+	mustGit(dir, "branch", "bugs") // branches that merely share a name (or the beginning of one) with git-bug's namespaces
+	mustGit(dir, "branch", "bugs-triage")
+	mustGit(dir, "branch", "bugsquash")
+	mustGit(dir, "branch", "identities-old")
 	hx.Must(os.WriteFile(filepath.Join(dir, "src", "main.c"), []byte("int main(){return 1;}\n"), 0o644)) // dirty
 	hx.Must(os.WriteFile(filepath.Join(dir, "staged.txt"), []byte("staged\n"), 0o644))
 	mustGit(dir, "add", "staged.txt")
@@ -227,7 +230,8 @@ func runSession(n int, seed uint64, gitbug string, steps int) []*Event {
 	prepareHost(s.a)
 	mustGit(s.root, "init", "-q", "--bare", hub)
 	mustGit(s.a, "remote", "add", "origin", hub)
-	mustGit(s.a, "push", "-q", "origin", "main")
+	mustGit(s.a, "push", "-q", "origin", "main", "bugs", "bugs-triage", "bugsquash", "identities-old", "feature/x")
+	mustGit(s.a, "fetch", "-q", "origin") // remote-tracking branches refs/remotes/origin/bugs-triage ... exist from the start
 	mustGit(s.root, "clone", "-q", hub, s.b)
 	mustGit(s.b, "config", "user.name", "b user")
 	mustGit(s.b, "config", "user.email", "b@example.org")
@@ -369,6 +373,10 @@ func runSession(n int, seed uint64, gitbug string, steps int) []*Event {
 		}
 		return git(m, "fsck", "--strict", "--no-dangling")
 	})
+	if n%3 == 0 {
+		// everything git-bug ever wrote goes away, nothing else does
+		s.step(s.a, "wipe", func() (string, int) { return s.gb(s.a, "wipe") })
+	}
 	return s.events
 }
 
